@@ -53,8 +53,60 @@ def tree_strings(ctx):
     return cases
 
 
+def corpus_strings(ctx):
+    """Layer 5: the inputs of the library's OWN tests. The package's test suite is run from /repo's working tree with
+    the verif tag and VERIF_WKT_CORPUS set: the hook's "begin" event appends every string handed to wkt.Unmarshal
+    to a scratch file. Each distinct string (plus seeded word-level mutations) is then parsed by the driver with the
+    full hook trace and decided by the parser model like an enumerated string - the assertions of the specification
+    are applied to the executions the repository's tests already exercise."""
+    import json, os, random, re, subprocess
+    path = os.path.join(ctx.scratch, "wkt_corpus.ndjson")
+    env = dict(os.environ, VERIF_WKT_CORPUS=path, GOFLAGS="-mod=mod", GOPROXY="off", GOSUMDB="off", GOTOOLCHAIN="local")
+    p = subprocess.run(["go", "test", "-tags", "verif", "-vet=off", "-count=1", "./encoding/wkt/"], cwd=vlib.REPO, env=env,
+                       capture_output=True, text=True, timeout=600)
+    strs = []
+    if os.path.exists(path):
+        seen = set()
+        for l in open(path):
+            try:
+                s = json.loads(l)
+            except ValueError:
+                continue
+            if isinstance(s, str) and s not in seen and len(s) < 4000:
+                seen.add(s)
+                strs.append(s)
+    if len(strs) < 50:
+        raise vlib.Infra("WKT corpus harvest from the library's own tests returned %d strings (hook missing or tests do not build): %s"
+                         % (len(strs), (p.stdout + p.stderr)[-300:]))
+    rnd = random.Random(ctx.seed * 31 + 5)
+    cases = [dict(text=s, corpus=True) for s in strs]
+    for s in strs:
+        words = re.findall(r"[(),]|[^\s(),]+", s)
+        if len(words) < 4:
+            continue
+        for _ in range(2 if ctx.quick else 8):
+            w = list(words)
+            k = rnd.randrange(len(w))
+            m = rnd.randrange(4)
+            if m == 0:
+                del w[k]
+            elif m == 1:
+                w.insert(k, w[k])
+            elif m == 2 and k + 1 < len(w):
+                w[k], w[k + 1] = w[k + 1], w[k]
+            else:
+                nums = [i for i, x in enumerate(w) if re.fullmatch(r"-?[0-9.]+(e-?[0-9]+)?", x, re.I)]
+                if not nums:
+                    continue
+                w[rnd.choice(nums)] = rnd.choice(["0", "1", "-2.5", "1e21", "3"])
+            cases.append(dict(text=" ".join(w), corpus=True, weak=True))
+    ctx.coverage_extra.setdefault("model_a", []).append(dict(cfg="corpus of the library's own tests (hook begin event)",
+                                                             harvested=len(strs), strings=len(cases), tests_passed=p.returncode == 0))
+    return cases
+
+
 def run(ctx, verdict):
-    cases = tree_strings(ctx)
+    cases = tree_strings(ctx) + corpus_strings(ctx)
     for cfg in (QUICK if ctx.quick else THOROUGH):
         cs = w.enumerate_strings(ctx, cfg)
         if "absrej" in cfg:
@@ -63,5 +115,12 @@ def run(ctx, verdict):
             for c in cs:
                 c["weak"] = True
         cases += cs
-    vlib.note_cases(ctx, cases, nontrivial=lambda c: len(c["toks"]) > 3)
-    w.pipe(ctx, verdict, cases)
+    vlib.note_cases(ctx, cases, nontrivial=lambda c: len(c.get("toks") or c.get("text", "").split()) > 3)
+    obs = w.pipe(ctx, verdict, cases)
+    idx = [i for i, c in enumerate(cases) if c.get("corpus") and not c.get("weak")]
+    full = sum(1 for i in idx if obs[i].get("hastoks"))
+    acc = sum(1 for i in idx if obs[i].get("vclass") == "acc")
+    ctx.coverage_extra.setdefault("model_b", []).append(dict(what="corpus strings decided with the harness's own tokens (tree, events, lexer tokens compared)",
+                                                             strings=len(idx), with_own_tokens=full, accepted=acc))
+    if idx and full * 2 < len(idx):
+        raise vlib.Infra("only %d of %d corpus strings were tokenised by the harness: the corpus layer is vacuous" % (full, len(idx)))
